@@ -207,6 +207,48 @@ static void on_xcpu(int sig) {
            cb_started_ms >= 0 ? now - cb_started_ms : 0.0);
     _exit(98);
 }
+/* ---- chained application callbacks ------------------------------------
+ * The documented way for an application to have its own transfer callbacks is to hang them behind the library's
+ * (zck_dl_set_write_cb / zck_dl_set_header_cb + the data pointers): `chain 1` makes every download context the harness
+ * creates from then on carry such callbacks, which accept everything (as an application that just counts bytes or draws
+ * a progress bar does); `chain 2 K` makes the K-th application call refuse.  What the transport sees - the value the
+ * library's callback returns - is judged by the same oracles as without them; the counters go to the evidence. */
+static int g_chain = 0;
+static long g_chain_failat = -1;
+static struct { long calls, in_cb, seen_ok, mismatched, lost_result; const void *ptr; size_t l, c, ret; int data_ok; } chn;
+static int chain_tok_w, chain_tok_h;
+static size_t chain_write_cb(void *ptr, size_t l, size_t c, void *data) {
+    chn.in_cb++; chn.ptr = ptr; chn.l = l; chn.c = c; chn.data_ok = (data == (void *)&chain_tok_w);
+    size_t r = l * c;
+    if(g_chain == 2 && chn.calls == g_chain_failat) r = 0;
+    chn.calls++;
+    chn.ret = r;
+    return r;
+}
+static size_t chain_header_cb(char *b, size_t l, size_t c, void *data) {
+    chn.in_cb++; chn.ptr = b; chn.l = l; chn.c = c; chn.data_ok = (data == (void *)&chain_tok_h);
+    chn.calls++;
+    chn.ret = l * c;
+    return l * c;
+}
+static zckDL *zh_dl_init(zckCtx *z) {
+    zckDL *dl = zck_dl_init(z);
+    if(dl && g_chain) {
+        if(!zck_dl_set_write_cb(dl, chain_write_cb) || !zck_dl_set_write_data(dl, &chain_tok_w) ||
+           !zck_dl_set_header_cb(dl, (zck_wcb)chain_header_cb) || !zck_dl_set_header_data(dl, &chain_tok_h))
+            die("cannot install chained callbacks", NULL);
+    }
+    return dl;
+}
+/* after one library callback: bookkeeping about the application callback behind it */
+static void chain_account(const void *ptr, size_t n, size_t r) {
+    if(!g_chain) return;
+    if(chn.in_cb == 1) {
+        if(chn.ptr == ptr && chn.l * chn.c == n && chn.data_ok) chn.seen_ok++; else chn.mismatched++;
+        if(r != chn.ret) chn.lost_result++;
+    } else if(chn.in_cb > 1) chn.mismatched++;
+}
+
 static size_t feed(zckDL *dl, char *data, size_t len, const char *fragspec, int kind, int keep_going) {
     /* fragspec: "all" | "n:<size>" | "cuts:a,b,c" (ascending offsets) */
     size_t pos = 0, ncb = 0;
@@ -242,12 +284,14 @@ static size_t feed(zckDL *dl, char *data, size_t len, const char *fragspec, int 
         size_t r;
         cb_index = ncb;
         cb_started_ms = cpu_now();
+        chn.in_cb = 0;
         if(kind == 0) r = zck_write_chunk_cb(copy, 1, n, dl);
         else if(kind == 1) r = zck_write_zck_header_cb(copy, 1, n, dl);
         else r = zck_header_cb(copy, 1, n, dl);
         double took = cpu_now() - cb_started_ms;
         cb_started_ms = -1;
         if(took > worst_cb) worst_cb = took;
+        chain_account(copy, n, r);
         free(copy);
         ncb++;
         if(r != n) {
@@ -614,8 +658,14 @@ int main(int argc, char **argv) {
             RET("\"rc\":%d", 1);
         } else if(!strcmp(op, "dl_init")) {
             int d = slot(t[1]);
-            dls[d] = zck_dl_init(C(t[2]));
+            dls[d] = zh_dl_init(C(t[2]));
             RET("\"rc\":%d", dls[d] != NULL);
+        } else if(!strcmp(op, "chain")) {
+            g_chain = atoi(t[1]);
+            g_chain_failat = t[2] ? atol(t[2]) : -1;
+            RET("\"rc\":%d", 1);
+        } else if(!strcmp(op, "chainstat")) {
+            RET("\"mode\":%d,\"calls\":%ld,\"consistent\":%ld,\"mismatched\":%ld,\"lost_result\":%ld", g_chain, chn.calls, chn.seen_ok, chn.mismatched, chn.lost_result);
         } else if(!strcmp(op, "dl_set_range")) {
             zckRange *r = strcmp(t[2], "null") ? ranges[slot(t[2])] : NULL;
             RET("\"rc\":%d", (int)zck_dl_set_range(dls[slot(t[1])], r));
